@@ -29,6 +29,99 @@ func wireStructs(p *Prog) map[*types.Struct]bool {
 var censusSkip func(ssa.Instruction) bool
 var censusRange func(ssa.Value) (int, int, bool)
 
+// censusNil (set and reset by the caller): also count dereferences of pointers that may be nil - the result of a
+// repository function, a merged value, a pointer loaded from memory - as panic sites.
+var censusNil bool
+
+// nonNilResultWhenOK: every return of g whose error result is the constant nil has a result #0 that cannot be nil
+// (a fresh allocation, the address of something): `(node, nil)` or `(nil, err)`.
+func nonNilResultWhenOK(g *ssa.Function) bool {
+	if g == nil || len(g.Blocks) == 0 || g.Signature.Results().Len() != 2 {
+		return false
+	}
+	n := 0
+	for _, b := range g.Blocks {
+		ret, ok := b.Instrs[len(b.Instrs)-1].(*ssa.Return)
+		if !ok || len(ret.Results) != 2 {
+			continue
+		}
+		n++
+		if k, isK := ret.Results[1].(*ssa.Const); !isK || !k.IsNil() {
+			continue // an error return
+		}
+		if !definitelyNonNil(ret.Results[0], 0) {
+			return false
+		}
+	}
+	return n > 0
+}
+
+// definitelyNonNil: v is an address or a fresh object whatever the path.
+func definitelyNonNil(v ssa.Value, depth int) bool {
+	switch x := v.(type) {
+	case *ssa.Alloc, *ssa.FieldAddr, *ssa.IndexAddr, *ssa.Global, *ssa.MakeMap, *ssa.MakeSlice, *ssa.MakeChan, *ssa.MakeClosure, *ssa.MakeInterface, *ssa.Function:
+		return true
+	case *ssa.Phi:
+		if depth > 3 {
+			return false
+		}
+		for _, e := range x.Edges {
+			if !definitelyNonNil(e, depth+1) {
+				return false
+			}
+		}
+		return len(x.Edges) > 0
+	case *ssa.ChangeType:
+		return definitelyNonNil(x.X, depth+1)
+	}
+	return false
+}
+
+// derefDischarged: the pointer base dereferenced in block b cannot be nil there.
+func derefDischarged(T *Terms, b *ssa.BasicBlock, base ssa.Value) (bool, string) {
+	if definitelyNonNil(base, 0) {
+		return true, "address or fresh object"
+	}
+	switch x := base.(type) {
+	case *ssa.Parameter, *ssa.FreeVar:
+		return true, "parameter (callers pass the receiver / an object they own)"
+	case *ssa.Const:
+		if x.IsNil() {
+			return false, "the pointer is the constant nil"
+		}
+	}
+	fs := T.FactsAt(b)
+	bt := T.T(base)
+	if hasFact(fs, "NE", bt, "nil") {
+		return true, "dominating test against nil"
+	}
+	// (node, nil) or (nil, err): the node of a call whose error is known nil
+	if ex, ok := base.(*ssa.Extract); ok && ex.Index == 0 {
+		if c, ok := ex.Tuple.(*ssa.Call); ok {
+			if g := c.Call.StaticCallee(); g != nil && nonNilResultWhenOK(g) && hasFact(fs, "EQ", "ext("+T.T(c)+",1)", "nil") {
+				return true, "result of " + g.Name() + " under err == nil (its success returns carry a fresh object)"
+			}
+		}
+	}
+	// a merged value: every alternative must be discharged on its own
+	if ph, ok := base.(*ssa.Phi); ok {
+		all := len(ph.Edges) > 0
+		for _, e := range ph.Edges {
+			if k, isK := e.(*ssa.Const); isK && k.IsNil() {
+				all = false
+			} else if !definitelyNonNil(e, 0) {
+				if ok2, _ := derefDischarged(T, b, e); !ok2 {
+					all = false
+				}
+			}
+		}
+		if all {
+			return true, "every merged alternative is non-nil"
+		}
+	}
+	return false, "the pointer " + strip(bt) + " may be nil here (no dominating nil test, not a fresh object)"
+}
+
 func panicCensus(r *Run, p *Prog, T *Terms, rule string, fns0 map[*ssa.Function]bool) int {
 	n := 0
 	wires := wireStructs(p)
@@ -97,6 +190,22 @@ func panicCensus(r *Run, p *Prog, T *Terms, rule string, fns0 map[*ssa.Function]
 						ok := (isK && k.Int64() != 0) || lo > 0 || hi < 0
 						r.Ob(rule, fn, "integer division by "+strip(T.T(x.Y)), x.Pos(), ok, "divisor not known to be non-zero")
 					}
+				case *ssa.FieldAddr:
+					if !censusNil {
+						continue
+					}
+					if definitelyNonNil(x.X, 0) {
+						continue
+					}
+					if _, isPar := x.X.(*ssa.Parameter); isPar {
+						continue
+					}
+					if _, isFV := x.X.(*ssa.FreeVar); isFV {
+						continue
+					}
+					n++
+					ok, why := derefDischarged(T, b, x.X)
+					r.Ob(rule, fn, "member access ."+fieldName(x.X, x.Field)+" through "+strip(T.T(x.X)), x.Pos(), ok, why)
 				case *ssa.UnOp:
 					if x.Op != token.MUL {
 						continue
